@@ -34,5 +34,20 @@ add("C18",
     "Bounded symbolic model checking: line/column arithmetic for every byte string up to the bound and every "
     "position; whole-parser positions over templates.",
     "DESIGN.md 3/C18", "CrossHair symbolic execution (z3) of Lexer.curlineno/curcolno on symbolic bytes; template exploration")
-for _p in ("C05", "C06", "C07", "C08", "C09", "C10", "C11", "C12", "C13", "C14", "C15", "C16", "C17", "C19", "C20"):
+add("C07",
+    "Bounded symbolic model checking with the loaded-extension set itself symbolic (13 booleans forced on demand): for "
+    "every accepted input of the token spaces and of 184 carrier scripts every extension the reference walk finds is in "
+    "the set; a missing extension is reported by name, first in script order.",
+    "DESIGN.md 3/C07", "CrossHair symbolic execution (z3) of Parser.parse with a symbolic loaded-extension set (LazyExtSet) vs frozen extension table")
+add("C13",
+    "Inductive step by symbolic execution: with every attribute the parser keeps between calls set to an arbitrary "
+    "(symbolic) value and an arbitrary global extension list, parse() of each corpus script gives exactly the pristine "
+    "outcome (verdict, error, tree, serialisation, comments).",
+    "DESIGN.md 3/C13", "CrossHair symbolic execution (z3) of Parser.parse from a havocked (symbolic) pre-state; AST-derived state list")
+add("C20",
+    "Bounded symbolic model checking over symbolic command definitions of the documented shape registered through the "
+    "real add_commands, and all argument sequences up to K; verdict, recorded names, tree and print/parse round trip "
+    "compared with the reference grammar instantiated from the same definition.",
+    "DESIGN.md 3/C20", "CrossHair symbolic execution (z3) of add_commands + Parser.parse + tosieve over symbolic definitions and argument sequences")
+for _p in ("C05", "C06", "C08", "C09", "C10", "C11", "C12", "C14", "C15", "C16", "C17", "C19"):
     NOT_APPLICABLE[_p] = "check under construction in this session (see DESIGN.md section 3); not yet claimed"
